@@ -105,6 +105,11 @@ sub vcl_recv {
 	{"hand/error-forms-6", "sub vcl_recv {\n  error 601 + 1;\n}\n"},
 	{"hand/error-forms-7", "sub vcl_recv {\n  error req.http.X;\n}\n"},
 	{"hand/error-forms-8", "sub vcl_recv {\n  error std.atoi(\"601\") \"x\";\n}\n"},
+	{"hand/long-concat", "sub vcl_recv {\n  set req.http.X = " + strings.Repeat("\"a\" req.http.B ", 150) + ";\n}\n"},
+	{"hand/long-or", "sub vcl_recv {\n  if (" + strings.Repeat("req.http.A || ", 200) + "req.http.Z) {\n    esi;\n  }\n}\n"},
+	{"hand/deep-parens", "sub vcl_recv {\n  set req.http.X = " + strings.Repeat("(", 200) + "\"a\"" + strings.Repeat(")", 200) + ";\n}\n"},
+	{"hand/deep-if", "sub vcl_recv {\n" + strings.Repeat("if (req.http.A) {\n", 150) + "esi;\n" + strings.Repeat("}\n", 150) + "}\n"},
+	{"hand/long-non-ascii", "sub vcl_error {\n  synthetic {\"x" + strings.Repeat("\u3067\u3059", 400) + "\"};\n  set obj.http.X = \"" + strings.Repeat("\u00e9", 700) + "\";\n}\n"},
 	{"hand/deep", "sub vcl_recv { if (a) { if (b) { if (c) { if (d) { if (e) { esi; } } } } } }"},
 }
 
@@ -181,7 +186,11 @@ func encCorpus() []encItem {
 				func() {
 					defer func() { recover() }()
 					b, err := codec.NewEncoder().Encode(st)
-					if err != nil || len(b) > 2048 {
+					limit := 2048
+					if strings.HasPrefix(s.Name, "hand/") {
+						limit = 16 << 10 // the hand-written long and deep forms
+					}
+					if err != nil || len(b) > limit {
 						return
 					}
 					encItems = append(encItems, encItem{s.Name, st, append([]byte{}, b...)})
